@@ -102,6 +102,30 @@ def _apply_joint(world, state, slots, allow, direct):
     return _Direct(nxt, len(slots))
 
 
+def _warm_up(slots, direct):
+    """the same joint line executed first, in this process, against ANOTHER domain that uses the same action names (the
+    bodies exchanged between the actions) and a larger object set: what a process that handles a revised domain or a second
+    problem does.  Its result is ignored; the checked execution that follows must not depend on it."""
+    by_name = {a[0]: a for a in seqsem.MA_ACTIONS}
+    swap = {"take": "drop", "drop": "take", "sweep": "flag", "flag": "audit", "audit": "charge", "charge": "sweep", "burn": "burn"}
+    variant = []
+    for n, params, pre, eff in seqsem.MA_ACTIONS:
+        _, p2, pre2, eff2 = by_name[swap[n]]
+        if n == "burn":
+            pre2, eff2 = ["and", ["p", "?i"]], ["and", ["p", "?j"], ["not", ["q", "?a", "?i"]], ["decrease", ["g"], "3"]]
+        variant.append((n, params, pre2, eff2))
+    text2 = seqsem.ma_domain_text(actions=variant)
+    objects2 = dict(G.OBJECTS)
+    objects2["o9"] = "t1"
+    world2 = lib.World(text2, objects2)
+    atoms = {a: True for a in ["(p o1)", "(p o2)", "(p o3)", "(p o9)", "(q o1 o2)", "(q o2 o3)", "(q o3 o9)", "(q o1 o9)", "(r)"]}
+    state, _ = world2.make_state(atoms, {"(f o1)": 1.0, "(f o2)": 2.0, "(f o3)": 3.0, "(g)": 4.0})
+    try:
+        _apply_joint(world2, state, slots, True, direct)
+    except Exception:  # noqa  (whatever the other domain makes of this line is not the subject)
+        pass
+
+
 def run_joint(task):
     from pddl_plus_parser.models import ActionCall, Operator
     from pddl_plus_parser.multi_agent.common import apply_actions
@@ -139,6 +163,8 @@ def run_joint(task):
                 return None
             if world_holder[0] is None:
                 world_holder[0] = lib.World(text, G.OBJECTS)
+                if task.get("warmup"):
+                    _warm_up(slots, task.get("direct"))
             world = world_holder[0]
             state, keys = seqsem.symbolic_state(world, comp, sym_atoms, fl_all)
             before = lib.state_digest(state)
@@ -229,6 +255,8 @@ def replay_joint(task, atoms, fls):
     slots = task["slots"]
     calls = [(s[0], list(s[1])) for s in slots if s is not None]
     world = lib.World(text, G.OBJECTS)
+    if task.get("warmup"):
+        _warm_up(slots, task.get("direct"))
     state, keys = world.make_state({a: v for a, v in atoms.items()}, dict(fls))
     sym_atoms, fl_all = list(atoms), list(fls)
     seq = comp.sequence(calls)
@@ -464,6 +492,10 @@ def tasks_for(tier, seed):
             orders = perms if tier == "thorough" else [perms[0], perms[-1]]
         tasks.append({"kind": "joint", "mode": "joint", "slots": slots, "chain_orders": [list(o) for o in orders],
                       "cap": 9 if tier == "quick" else 12, "max_paths": 3000 if tier == "quick" else 30000})
+        if k >= 1 and (len(tasks) % 3 == 0 or tier == "thorough"):
+            # the same line after this process executed it against another domain / a larger problem with the same action names
+            tasks.append({"kind": "joint", "mode": "joint", "slots": slots, "chain_orders": [], "warmup": True, "direct": len(tasks) % 2 == 0,
+                          "cap": 9 if tier == "quick" else 12, "max_paths": 3000 if tier == "quick" else 30000})
         if None in slots and k >= 1 and (len(tasks) % 2 == 0 or tier == "thorough"):
             # apply_actions called directly, the nop entries still in the list (leading, in between, trailing)
             tasks.append({"kind": "joint", "mode": "joint", "slots": slots, "chain_orders": [], "direct": True,
